@@ -360,7 +360,14 @@ def xright(from_str, num_chars=1):
 
 
 FUNCTIONS['RIGHT'] = wrap_ufunc(xright, **_kw0)
-FUNCTIONS['TRIM'] = wrap_ufunc(str.strip, **_kw1)
+
+
+def xtrim(text):
+    # Removes all spaces except for single spaces between words.
+    return ' '.join(v for v in text.split(' ') if v)
+
+
+FUNCTIONS['TRIM'] = wrap_ufunc(xtrim, **_kw1)
 FUNCTIONS['UPPER'] = wrap_ufunc(str.upper, **_kw1)
 
 
